@@ -412,6 +412,24 @@ def run(args) -> int:
                       dict(kind='obligation', logic=name, detail=why), found_input=False)
     TABLES.update({n: t['tables'] for n, t in tf.items()})
     static_obligations(chk, logics)
+    # "the closure required by the logic": the model's access class must be the frame class the logic's own frame rules
+    # state (two independent places in the code)
+    CLASS = {'Access': (False, False, False, False), 'SerialAccess': (False, False, False, True),
+             'ReflexiveAccess': (True, False, False, False), 'ReflexiveTransitiveAccesss': (True, True, False, False),
+             'GlobalAccess': (True, True, True, False)}
+    for n_, t_ in tf.items():
+        if not t_['modal']:
+            continue
+        names_ = {r_ for g_ in t_['groups'] for r_ in g_}
+        byrules = ('Reflexive' in names_, 'Transitive' in names_, 'Symmetric' in names_, 'Serial' in names_ and 'Reflexive' not in names_)
+        ok_ = CLASS.get(t_['access']) == byrules
+        chk.obligation(f'{n_}:access class is the frame class of the frame rules', ok_)
+        if not ok_:
+            chk.violation(f'finish:{n_}:access-class-not-the-logics-frame-class',
+                          f"{n_}: the model closes its access relation as {t_['access']} {CLASS.get(t_['access'])} but the logic's frame rules "
+                          f"state (reflexive, transitive, symmetric, serial) = {byrules}: e.g. a chain 0R1, 1R2 is finished without the pairs the frame class requires",
+                          dict(kind='obligation', logic=n_, access=t_['access'], frame_rules=sorted(names_ & {'Reflexive', 'Transitive', 'Symmetric', 'Serial'})),
+                          found_input=True)
     chk.assumptions = props_assumptions(PID)
     chk.theorems = THEOREMS
     # ---- correspondence --------------------------------------------------------------
